@@ -74,6 +74,29 @@ theorem C09_cmdline_mutex (kind : Pid → Kind) (lp : Pid → Option Pid) (tries
       (fun p => lockedStacks (envPath p) (optZ p) (optz p)) explicit) sched) :=
   LockPathR.mutexM_mrun kind lp tries _ explicit (fun _ => nodup_dedup _) sched
 
+/-- … the same with signals delivered to command bodies. -/
+theorem C09_cmdline_mutex_with_signals (kind : Pid → Kind) (lp : Pid → Option Pid) (tries : Pid → Nat)
+    (envPath : Pid → List Nat) (optZ : Pid → Option (List Nat)) (optz : Pid → Option Nat)
+    (explicit : Pid → Bool) (evs : List LockPathR.MEv) :
+    LockPathR.MutexM (LockPathR.mrunE (LockPathR.minit kind lp tries
+      (fun p => lockedStacks (envPath p) (optZ p) (optz p)) explicit) evs) :=
+  LockPathR.mutexM_mrunE kind lp tries _ explicit (fun _ => nodup_dedup _) evs
+
+/-- **A command in its body holds every stack it works on**: for command lines (paths as `setEupsPath` makes them),
+in every reachable state — signals included — a command whose `takeLocks` has returned holds its lock on every stack
+of its path: an updater an exclusive one on every stack it may write to. -/
+theorem C09_cmdline_body_holds_every_stack (kind : Pid → Kind) (lp : Pid → Option Pid) (tries : Pid → Nat)
+    (envPath : Pid → List Nat) (optZ : Pid → Option (List Nat)) (optz : Pid → Option Nat)
+    (explicit : Pid → Bool) (evs : List LockPathR.MEv) (p : Pid) (d : Nat)
+    (hb : LockPathR.inBodyM ((LockPathR.mrunE (LockPathR.minit kind lp tries
+      (fun p => lockedStacks (envPath p) (optZ p) (optz p)) explicit) evs).ctl p) = true)
+    (hd : d ∈ lockedStacks (envPath p) (optZ p) (optz p)) :
+    ((LockPathR.mrunE (LockPathR.minit kind lp tries
+      (fun p => lockedStacks (envPath p) (optZ p) (optz p)) explicit) evs).comp d).pc p = .hold ∧
+    (kind p, p) ∈ ((LockPathR.mrunE (LockPathR.minit kind lp tries
+      (fun p => lockedStacks (envPath p) (optZ p) (optz p)) explicit) evs).comp d).files :=
+  LockPathR.body_holds kind lp tries _ explicit (fun _ => nodup_dedup _) evs p d hb hd
+
 /-- non-vacuity: `-Z 2:0:2 -z …` style selections -/
 example : lockedStacks [0, 1] (some [2, 0, 2]) none = [2, 0] ∧ lockedStacks [0, 1, 1] none (some 1) = [1] ∧
     bracket .declare {} = some .ex ∧ bracket .declare { help := true } = none ∧
